@@ -516,7 +516,7 @@ func opAlphabet(buckets, keys []string, single bool) []s3op {
 func runC02(c *Ctx) {
 	r := c.R
 	exhLen := r.Pick(3, 4)
-	r.SetRule(fmt.Sprintf("bounded-exhaustive: every sequence of length %d over a reduced alphabet (1 bucket, keys k and d/x: create/head/delete bucket, put x2 bodies and the first body again with other metadata, get, head, delete, copy incl. self-copy, multi-delete, list-buckets), every put carrying body-derived Content-Type and x-amz-meta-w that reads must return, each step followed by an audit read of every key; random: sequences of 30-60 ops over 2 buckets x keys {k, d/x, d/y, d/e/z} incl. cross-bucket copy, a third never-created bucket and never-written ghost keys (below an object, the name of a directory above objects, an extension of a key) as targets of reads, deletes and copy sources, multi-deletes with bare keys, with version id 'null' (the same delete in a never-versioned bucket) and with a version id that does not exist (nothing may be removed); each on mem, bolt, fs-mm, fs-dir, single-mm, single-dir, with and without auto-bucket, via HTTP and via the Go Backend API; distinct = (configuration, op-kind sequence, outcome-class sequence) containing a mutation followed by a dependent read", exhLen))
+	r.SetRule(fmt.Sprintf("bounded-exhaustive: every sequence of length %d over a reduced alphabet (1 bucket, keys k and d/x: create/head/delete bucket, put x2 bodies and the first body again with other metadata, get, head, delete, copy incl. self-copy, multi-delete, list-buckets), every put carrying body-derived Content-Type and x-amz-meta-w that reads must return, each step followed by an audit read of every key; random: sequences of 30-60 ops over 2 buckets x keys {k, d/x, d/y, d/e/z, <bucket>/in} incl. cross-bucket copy, a third never-created bucket and never-written ghost keys (below an object, the name of a directory above objects, an extension of a key) as targets of reads, deletes and copy sources, multi-deletes with bare keys, with version id 'null' (the same delete in a never-versioned bucket) and with a version id that does not exist (nothing may be removed); each on mem, bolt, fs-mm, fs-dir, single-mm, single-dir, with and without auto-bucket, via HTTP and via the Go Backend API; distinct = (configuration, op-kind sequence, outcome-class sequence) containing a mutation followed by a dependent read", exhLen))
 	r.Exhaustive(true)
 	var cfgs []c02Config
 	for _, k := range drv.AllKinds {
@@ -599,7 +599,8 @@ func runC02(c *Ctx) {
 			if single {
 				bk = []string{drv.SingleName, "other-bucket"}
 			}
-			keys := []string{"k", "d/x", "d/y", "d/e/z"}
+			// (also a key whose first segment is spelt like its bucket)
+			keys := []string{"k", "d/x", "d/y", "d/e/z", bk[0] + "/in"}
 			ghosts := []string{"k/below", "d/x/below/deeper", "d", "d/e", "kk", "d/xx", "d/e/z/z", "d/x/one", "d/y/one", "k/one",
 				// names no file system entry can have: a segment of 300 bytes, and a 230-byte key whose
 				// flattened metadata name is too long; never written, so reads say NoSuchKey and deletes succeed
